@@ -128,10 +128,16 @@ theorem C07_only_fresher (cfg : Cfg) (es : List TEvent) :
       rw [quiet_accepted hq]
       cases ho : cfg.observe <;> simp [step, stepFirst, ho, ChainFresh]
     | obsCancel =>
-      have hq : Quiet (step cfg .awaitingFirst ⟨t, .obsCancel⟩).1 := by
-        simp [step, stepFirst, Quiet]
-      rw [quiet_accepted hq]
-      simp [step, stepFirst, ChainFresh]
+      cases ho : cfg.observe
+      · have hq : Quiet (step cfg .awaitingFirst ⟨t, .obsCancel⟩).1 := by
+          simp [step, stepFirst, ho, Quiet]
+        rw [quiet_accepted hq]
+        simp [step, stepFirst, ho, ChainFresh]
+      · apply chainFresh_short
+        have : step cfg .awaitingFirst ⟨t, .obsCancel⟩ = (.cancelledFirst, []) := by
+          simp [step, stepFirst, ho]
+        rw [this]
+        simpa using cancelledFirst_accepted cfg es
     | respCancel =>
       have hq : Quiet (step cfg .awaitingFirst ⟨t, .respCancel⟩).1 := by
         simp [step, stepFirst, Quiet]
@@ -231,7 +237,12 @@ theorem C07_state_is_last_handed_over (cfg : Cfg) (es : List TEvent) (v1 t1 : Na
     | exception k =>
       exact absurd h (quiet_not_observing (by simp [step, stepFirst, Quiet]) es v1 t1)
     | obsCancel =>
-      exact absurd h (quiet_not_observing (by simp [step, stepFirst, Quiet]) es v1 t1)
+      cases ho : cfg.observe
+      · exact absurd h (quiet_not_observing (by simp [step, stepFirst, ho, Quiet]) es v1 t1)
+      · have : step cfg .awaitingFirst ⟨t, .obsCancel⟩ = (.cancelledFirst, []) := by
+          simp [step, stepFirst, ho]
+        rw [this] at h
+        exact absurd h (cancelledFirst_not_observing cfg es v1 t1)
     | respCancel =>
       exact absurd h (quiet_not_observing (by simp [step, stepFirst, Quiet]) es v1 t1)
 
@@ -253,8 +264,16 @@ theorem step_handedOver (cfg : Cfg) (s : ObsState) (e : TEvent) :
         · simp
         · split <;> simp
     | exception k => left; cases ho : cfg.observe <;> simp [step, stepFirst, ho]
-    | obsCancel => left; simp [step, stepFirst]
+    | obsCancel => left; cases ho : cfg.observe <;> simp [step, stepFirst, ho]
     | respCancel => left; simp [step, stepFirst]
+  | cancelledFirst =>
+    cases ev with
+    | message m last =>
+      right; refine ⟨m, rfl, ?_⟩
+      cases last <;> cases hv : m.obs <;> simp [step, stepCancelledFirst, hv]
+    | exception k => left; simp [step, stepCancelledFirst]
+    | obsCancel => left; simp [step, stepCancelledFirst]
+    | respCancel => left; simp [step, stepCancelledFirst]
   | observing v1 t1 =>
     cases ev with
     | message m last =>
@@ -433,11 +452,13 @@ def Event.terminating : Event → Bool
   | .exception _ => true
   | _ => false
 
-/-- how an observation has to end, as the property states it: `NotObservable` when already the
-first event is terminating; otherwise, at the first terminating event, the transport's exception
-or `ObservationCancelled`; otherwise not at all -/
+/-- how an observation has to end, as the property states it: with the network error when already
+the initial request fails in the transport; as `NotObservable` when the first response carries no
+Observe option (or is marked last); otherwise, at the first terminating event, the transport's
+exception or `ObservationCancelled`; otherwise not at all -/
 def expectedEnd : List Event → List ErrKind
   | [] => []
+  | .exception k :: _ => [.transport k]
   | e :: rest =>
     if e.terminating then [.notObservable] else
     match rest.find? Event.terminating with
@@ -465,9 +486,16 @@ theorem step_errbacks (cfg : Cfg) (s : ObsState) (e : TEvent) :
     | exception k =>
       cases ho : cfg.observe
       · left; simp [step, stepFirst, ho]
-      · right; exact ⟨.notObservable, by simp [step, stepFirst, ho], by simp [step, stepFirst]⟩
-    | obsCancel => left; simp [step, stepFirst]
+      · right; exact ⟨.transport k, by simp [step, stepFirst, ho], by simp [step, stepFirst]⟩
+    | obsCancel => left; cases ho : cfg.observe <;> simp [step, stepFirst, ho]
     | respCancel => left; simp [step, stepFirst]
+  | cancelledFirst =>
+    left
+    cases ev with
+    | message m last => cases last <;> cases hv : m.obs <;> simp [step, stepCancelledFirst, hv]
+    | exception k => simp [step, stepCancelledFirst]
+    | obsCancel => simp [step, stepCancelledFirst]
+    | respCancel => simp [step, stepCancelledFirst]
   | observing v1 t1 =>
     cases ev with
     | message m last =>
@@ -549,11 +577,11 @@ theorem ends_observing (cfg : Cfg) (es : List TEvent) (v1 t1 : Nat)
 
 /-- **C07 (the observation ends exactly once, and as the property says).** For an observing
 request and every history of pipe events: the sequence of termination signals is exactly
-`expectedEnd` — `NotObservable`, once, iff the first event is a response without Observe option
-(or marked last, or an exception: then the response future fails as well); otherwise nothing until
-the first terminating event, and at that event exactly one signal: the transport's exception, or
-`ObservationCancelled` for a response without Observe option (or marked last); none if no
-terminating event arrives. -/
+`expectedEnd` — the transport's exception, once, if already the first event is an exception (the
+response future fails with it as well); `NotObservable`, once, iff the first event is a response
+without Observe option (or marked last); otherwise nothing until the first terminating event, and
+at that event exactly one signal: the transport's exception, or `ObservationCancelled` for a
+response without Observe option (or marked last); none if no terminating event arrives. -/
 theorem C07_ends_exactly_once (cfg : Cfg) (hobs : cfg.observe = true) (es : List TEvent)
     (hp : ∀ e ∈ es, e.ev.isPipe = true) :
     errbacks (deliveries cfg .awaitingFirst es) = expectedEnd (es.map (·.ev)) := by
@@ -563,9 +591,10 @@ theorem C07_ends_exactly_once (cfg : Cfg) (hobs : cfg.observe = true) (es : List
     have hrest : ∀ e' ∈ es, e'.ev.isPipe = true := fun e' he' => hp e' (List.mem_cons_of_mem _ he')
     have hpe := hp e List.mem_cons_self
     obtain ⟨t, ev⟩ := e
-    rw [deliveries_cons, errbacks_append, List.map_cons, expectedEnd]
+    rw [deliveries_cons, errbacks_append, List.map_cons]
     cases ev with
     | message m last =>
+      simp only [expectedEnd]
       cases hl : last
       · cases hv : m.obs with
         | none =>
@@ -583,8 +612,7 @@ theorem C07_ends_exactly_once (cfg : Cfg) (hobs : cfg.observe = true) (es : List
         rw [over_deliveries (by simp [step, stepFirst, hobs, Over])]
         simp [step, stepFirst, hobs]
     | exception k =>
-      have : Event.terminating (.exception k) = true := rfl
-      simp only [this, ↓reduceIte]
+      simp only [expectedEnd]
       rw [over_deliveries (by simp [step, stepFirst, Over])]
       simp [step, stepFirst, hobs]
     | obsCancel => simp [Event.isPipe] at hpe
@@ -699,8 +727,15 @@ theorem step_afterEnd (cfg : Cfg) (s : ObsState) (e : TEvent) :
         · simp [afterEnd, Delivery.err?]
         · split <;> simp [afterEnd, Delivery.err?]
     | exception k => cases ho : cfg.observe <;> simp [step, stepFirst, ho, afterEnd, Delivery.err?]
-    | obsCancel => simp [step, stepFirst, afterEnd]
+    | obsCancel => cases ho : cfg.observe <;> simp [step, stepFirst, ho, afterEnd]
     | respCancel => simp [step, stepFirst, afterEnd, Delivery.err?]
+  | cancelledFirst =>
+    cases ev with
+    | message m last =>
+      cases last <;> cases hv : m.obs <;> simp [step, stepCancelledFirst, hv, afterEnd, Delivery.err?]
+    | exception k => simp [step, stepCancelledFirst, afterEnd, Delivery.err?]
+    | obsCancel => simp [step, stepCancelledFirst, afterEnd]
+    | respCancel => simp [step, stepCancelledFirst, afterEnd, Delivery.err?]
   | observing v1 t1 =>
     cases ev with
     | message m last =>
@@ -731,6 +766,47 @@ theorem C07_only_stop_after_end (cfg : Cfg) (s : ObsState) (es : List TEvent) :
       exact ih _
     · rw [over_deliveries (Or.inl hend), List.append_nil]
       exact step_afterEnd cfg s e
+
+-- C07 clause 6b: nothing after the application's own cancel ----------------------------------------
+
+/-- **C07 (nothing after the application's cancel).** Once the application has called
+`request.observation.cancel()` — before the first response or during the observation, from any
+state — nothing that arrives later is passed to the observation's listeners: no callback and no
+errback in any continuation (and so, with `ClientObservation.error` never called on the cancelled
+observation, nothing is raised into whoever delivers the event). -/
+theorem C07_nothing_after_app_cancel (cfg : Cfg) (s : ObsState) (pre post : List TEvent) (t : Nat) :
+    ∀ d ∈ deliveries cfg (finalState cfg s (pre ++ [⟨t, .obsCancel⟩])) post, d.isSignal = false := by
+  rw [finalState_append]
+  have hc : Calm (finalState cfg (finalState cfg s pre) [⟨t, .obsCancel⟩]) := by
+    rw [finalState_cons, finalState_nil]
+    generalize finalState cfg s pre = s1
+    cases s1 with
+    | awaitingFirst => cases ho : cfg.observe <;> simp [step, stepFirst, ho, Calm, Quiet]
+    | cancelledFirst => simp [step, stepCancelledFirst, Calm, Quiet]
+    | observing v1 t1 => simp [step, stepObserving, Calm, Quiet]
+    | appCancelled => simp [step, stepCancelled, Calm, Quiet]
+    | ended => simp [step, Calm, Quiet]
+    | unmodelled => simp [step, Calm, Quiet]
+  exact (calm_run hc post).2
+
+/-- **C07 (cancelled before the first response: the response future still completes).** After
+`observation.cancel()` before the first event, that event completes the response future exactly as
+it would have otherwise — the response, or the transport's exception — and is not signalled to the
+observation; a first notification merely lets the runner withdraw from the pipe at the next
+event. -/
+theorem C07_app_cancel_before_first_response (cfg : Cfg) (hobs : cfg.observe = true) (t t' : Nat) :
+    step cfg .awaitingFirst ⟨t, .obsCancel⟩ = (.cancelledFirst, []) ∧
+    (∀ m last, step cfg .cancelledFirst ⟨t', .message m last⟩ =
+      (if last = true ∨ m.obs = none then .ended else .appCancelled,
+       .response m :: if last = false ∧ m.obs = none then [.stopInterest] else [])) ∧
+    (∀ k, step cfg .cancelledFirst ⟨t', .exception k⟩ = (.ended, [.responseExc k])) ∧
+    (∀ e, (step cfg .appCancelled e).2 = if e.ev.isPipe then [.stopInterest] else []) := by
+  refine ⟨by simp [step, stepFirst, hobs], ?_, fun k => rfl, ?_⟩
+  · intro m last
+    cases last <;> cases hv : m.obs <;> simp [step, stepCancelledFirst, hv]
+  · intro e
+    obtain ⟨t, ev⟩ := e
+    cases ev <;> simp [step, stepCancelled, Event.isPipe]
 
 -- C07 clause 7: joint with the message layer — after the end the token is retired -----------------
 
@@ -882,6 +958,21 @@ example : errbacks (deliveries exCfg .awaitingFirst (exHistory.take 8)) = [] := 
 /-- a first response without Observe that the pipe does not mark last (the fixed defect) -/
 example : deliveries exCfg .awaitingFirst [⟨0, .message ⟨69, none, 1⟩ false⟩, exN 1 5 2] =
     [.response ⟨69, none, 1⟩, .errback .notObservable, .stopInterest] := by decide
+
+/-- transport failure of the initial request (the second fixed defect): the observation ends with
+that error -/
+example : deliveries exCfg .awaitingFirst [⟨0, .exception 2⟩, exN 1 5 2] =
+    [.responseExc 2, .errback (.transport 2)] := by decide
+example : expectedEnd [.exception 2, .message ⟨69, some 5, 2⟩ false] = [.transport 2] := by decide
+/-- `observation.cancel()` before the first response (fixed in 5a6f232): the response future still
+completes, nobody is told anything, the runner withdraws at the next event -/
+example : deliveries exCfg .awaitingFirst
+    [⟨0, .obsCancel⟩, exN 1 5 2, exN 2 6 3, ⟨3, .message ⟨132, none, 4⟩ true⟩] =
+    [.response ⟨69, some 5, 2⟩, .stopInterest] := by decide
+example : deliveries exCfg .awaitingFirst [⟨0, .obsCancel⟩, ⟨1, .exception 3⟩] = [.responseExc 3] := by
+  decide
+example : deliveries exCfg .awaitingFirst [⟨0, .obsCancel⟩, ⟨1, .message ⟨69, none, 4⟩ true⟩] =
+    [.response ⟨69, none, 4⟩] := by decide
 
 /-- hypotheses of `C07_freshest_delivered` are met by a history that wraps around 2^24 -/
 def exWrap : List TEvent := [exN 10 (2 ^ 24 - 2) 0, exN 11 1 1, exN 12 (2 ^ 24 - 1) 2, exN 13 0 3, exN 14 1 4]
